@@ -695,3 +695,31 @@ Definition send_prog : lockprog :=
 
 Definition stop_prog : lockprog :=
   [IWork] (* host.Stop *) ++ locked_section [IWork] (* closed flag, c.Close of every connection *) ++ [IWork] (* wg.Wait *).
+
+(* ---- tcp.go receiveRawProd: under which deadline a Receive waits -----------------------------------------
+
+   A peer that dies SILENTLY (power loss, network cut: neither FIN nor RST reaches the survivor) is noticed
+   only by the read deadline of the survivor's handleConn. receiveRawProd arms the deadline (now + timeout)
+   before the read of the 4-byte frame header and again before every read of the body. [arm_header = false]
+   is the variant that arms it only before body reads: the header read then runs under whatever deadline
+   the last body read left behind -- none at all on a connection that has not received a frame yet.
+   Times are natural numbers; [leftover] is the absolute deadline left by the last body read. *)
+
+(* the time at which a Receive that starts waiting for a header at [now] on a silent connection returns
+   ErrTimeout; None: it never returns *)
+Definition receive_silent (arm_header : bool) (now timeout : nat) (leftover : option nat) : option nat :=
+  if arm_header then Some (now + timeout)
+  else match leftover with
+       | Some d => Some (Nat.max now d)
+       | None => None
+       end.
+
+(* the deadline a body read at time t leaves behind *)
+Definition after_body (t timeout : nat) : option nat := Some (t + timeout).
+
+(* is the silent death of the peer noticed on a connection ([fresh]: no frame received on it so far) *)
+Definition mute_detected (arm_header fresh : bool) : bool :=
+  match receive_silent arm_header 1 1 (if fresh then None else after_body 0 1) with
+  | Some _ => true
+  | None => false
+  end.
